@@ -50,7 +50,7 @@ def _world(repo):
 
 
 def _work(job):
-    repo, cname, tier, known = job
+    repo, cname, tier, known, variant = job
     from vc import prover as P
     from vc import loops as L
     from vc.values import EngineError
@@ -59,8 +59,9 @@ def _work(job):
     try:
         w, allc = _world(repo)
         c = [x for x in allc if f"{x.module}.{x.name}" == cname][0]
-        r = P.verify_contract(w, c, tier, loop_support=L, known=known)
+        r = P.verify_contract(w, c, tier, loop_support=L, known=known, only_variant=variant)
         r["ok"] = True
+        r["variant"] = variant
         return r
     except EngineError as e:
         return {"ok": False, "contract": cname, "error": f"EngineError: {e}", "trace": traceback.format_exc(), "wall_s": time.time() - t0}
@@ -115,7 +116,15 @@ def main():
     if args.only:
         mine = [c for c in mine if args.only in c.name or args.only in c.target]
     proved = [c for c in mine if not c.bounded_only and not c.assumed]
-    jobs = [(repo, f"{c.module}.{c.name}", args.tier, [k for k in known if k.get("contract") == f"{c.module}.{c.name}"]) for c in proved]
+    from vc import prover as P_
+
+    jobs = []
+    for c in proved:
+        kn = [k for k in known if k.get("contract") == f"{c.module}.{c.name}"]
+        nv = P_.n_variants(c)
+        for vi in range(nv) if nv > 1 else [None]:
+            jobs.append((repo, f"{c.module}.{c.name}", args.tier, kn, vi))
+    jobs.sort(key=lambda j: -(j[4] or 0))  # larger variants first
 
     # native tier runs concurrently with the prover
     native_out = os.path.join(HERE, "work", f"native_{prop}_{os.getpid()}.json")
@@ -139,6 +148,7 @@ def main():
                     else:
                         print(f"  {r['contract']}: {r['error']}", flush=True)
 
+    results = merge_variants(results)
     native = None
     native_err = None
     if nat is not None:
@@ -165,6 +175,8 @@ def main():
     trusted = set()
     samples = []
     covers = {"paths": 0, "sat": 0, "unknown": 0}
+    bounded_symbolic = {}
+    dep_checked = {}
     replay_dir = os.path.join(HERE, "replays", prop)
 
     for r in sorted(results, key=lambda x: x.get("contract", "")):
@@ -187,7 +199,22 @@ def main():
         changed = base.get("source_sha256") != r.get("source_sha256")
         nb = {"source_sha256": r.get("source_sha256"), "discharged": sorted({clause_of(o["name"]) for o in r["obligations"] if o["verdict"] == "unsat"})}
         new_baseline[cname] = nb
+        scoped = r.get("scope")
+        if scoped:
+            bs = bounded_symbolic.setdefault(cname, {"function": r["target"], "scope": scoped, "obligations": 0, "discharged": 0})
+        if r.get("dep"):
+            ds = dep_checked.setdefault(cname, {"function": r["target"], "obligations": 0, "discharged": 0})
         for o in r["obligations"]:
+            if scoped:
+                bs["obligations"] += 1
+                bs["discharged"] += o["verdict"] == "unsat"
+                n_obl -= 1
+                n_dis -= o["verdict"] == "unsat"
+            elif r.get("dep"):
+                ds["obligations"] += 1
+                ds["discharged"] += o["verdict"] == "unsat"
+                n_obl -= 1
+                n_dis -= o["verdict"] == "unsat"
             n_obl += 1
             solver_s += o["time"]
             slowest.append((o["time"], f"{r['target']}/{o['name']}"))
@@ -265,7 +292,8 @@ def main():
     for e in errors:
         print(f"CHECKER-ERROR: {e}")
 
-    if n_obl == 0 and not (native and any(b["accepted"] for b in bounded_summary)):
+    n_scoped = sum(b["obligations"] for b in bounded_symbolic.values())
+    if n_obl == 0 and n_scoped == 0 and not (native and any(b["accepted"] for b in bounded_summary)):
         errors.append("no obligations were generated")
         print("CHECKER-ERROR: no obligations were generated")
 
@@ -273,6 +301,9 @@ def main():
     slowest.sort(reverse=True)
     assumptions = sorted(trusted | set(static_assumptions(prop, mine, results)))
     level = "proof" if n_obl > 0 else "other"
+    if n_obl == 0:
+        n_eval += n_scoped
+        n_distinct += n_scoped
     cov = {
         "obligations": n_obl,
         "discharged": n_dis,
@@ -283,6 +314,10 @@ def main():
         "solver_s": round(solver_s, 3),
         "slowest": [{"obligation": n, "s": round(t, 3)} for t, n in slowest[:5]],
         "covers": covers,
+        "bounded_symbolic": list(bounded_symbolic.values()),
+        "bounded_symbolic_note": "finite-scope symbolic execution of the real loops (scope stated per entry): complete inside the scope, NOT an unbounded proof, not counted in obligations/discharged",
+        "dependency_contracts_checked": list(dep_checked.values()),
+        "dependency_note": "contracts of picosvg functions used modularly by nanoemoji's obligations, themselves checked against the installed picosvg source; reported separately from the obligations on /repo",
         "bounded": bounded_summary,
         "bounded_note": "bounded tier = the same contract clauses executed natively on the real functions over generated inputs; never counted in obligations/discharged",
         "evaluations": n_eval,
@@ -312,6 +347,8 @@ def main():
         os.makedirs(os.path.dirname(baseline_path), exist_ok=True)
         json.dump(baseline, open(baseline_path, "w"), indent=1, sort_keys=True)
 
+    if bounded_symbolic:
+        print(f"{prop}: bounded-symbolic (finite scope, not counted as proved): " + ", ".join(f"{b['function']} {b['discharged']}/{b['obligations']}" for b in bounded_symbolic.values()))
     print(f"{prop}: {n_dis}/{n_obl} obligations discharged over {len(functions)} contracts ({covers['paths']} paths), bounded evaluations {n_eval}, {len(vio_lines)} violation(s), {len(undecided)} undecided, {len(errors)} error(s), {ev['wall_s']}s")
     if vio_lines:
         return 1
@@ -320,6 +357,27 @@ def main():
     if undecided:
         return 2
     return 0
+
+
+def merge_variants(results):
+    out, by = [], {}
+    for r in results:
+        if not r.get("ok") or r.get("variant") is None:
+            out.append(r)
+            continue
+        k = r["contract"]
+        if k not in by:
+            by[k] = r
+            out.append(r)
+        else:
+            m = by[k]
+            m["obligations"] += r["obligations"]
+            for kk, v in r["covers"].items():
+                m["covers"][kk] = m["covers"].get(kk, 0) + v
+            m["used_contracts"] = sorted(set(m["used_contracts"]) | set(r["used_contracts"]))
+            m["inlined"] = sorted(set(m["inlined"]) | set(r["inlined"]))
+            m["wall_s"] = max(m["wall_s"], r["wall_s"])
+    return out
 
 
 def static_assumptions(prop, mine, results):
